@@ -35,6 +35,7 @@ theorem minv_crashMarks (cfg : Cfg) (ms : MsgSt) (c : Ch) (rs : List Rec) (marks
     (hall : (List.range rs.length).all (fun i => !(marks.getD i false) || (rs.getD i ⟨false, []⟩).done) = true) :
     MInv cfg (ms.setChan c (some (zipMarks rs marks))) := by
   obtain ⟨r1, r2, r3, r4, r5, r6, r7, r8, r9, r10, r11, r12, r13⟩ := setChan_rest ms c (some (zipMarks rs marks))
+  obtain ⟨q1, q2, q3⟩ := setChan_rest2 ms c (some (zipMarks rs marks))
   have hplaced : ∀ c', MsgSt.placed (ms.setChan c (some (zipMarks rs marks))) c' = MsgSt.placed ms c' := by
     intro c'; cases c' <;> simp [MsgSt.placed, r12, r13]
   constructor
@@ -60,7 +61,7 @@ theorem minv_crashMarks (cfg : Cfg) (ms : MsgSt) (c : Ch) (rs : List Rec) (marks
       exact h.k2 hn c' rs i hc hd' hi
     · exact h.k2 hn c' rs' i hc' hd hi
   · intro x hx; rw [r4] at hx; rw [r5, r6]; exact h.k3 x hx
-  · intro x hx; rw [r6] at hx; rw [r7, r8, r9, r10]; exact h.k4 x hx
+  · intro x hx; rw [r6] at hx; rw [r7, r8, q1, q2]; exact h.k4 x hx
   · intro hb; rw [r7]; exact h.k5 (by rw [← r3]; exact hb)
   · intro hn _
     rw [r1] at hn; rw [r2]
@@ -73,6 +74,9 @@ theorem minv_crashMarks (cfg : Cfg) (ms : MsgSt) (c : Ch) (rs : List Rec) (marks
     split at hc'
     · cases hc'
     · exact h.k7 hn c' hc' i hi
+  · intro hn sd r i ha hi; rw [r1] at hn; rw [r11] at ha; rw [r2] at hi; exact h.i1 hn sd r i ha hi
+  · intro hp; rw [r1, r2] at hp; rw [q3]; exact h.m1 hp
+  · intro sd r ha hd; rw [r11] at ha; rw [q1] at hd; exact h.d1 sd r ha hd
 
 /-! ### reports -/
 
